@@ -86,11 +86,11 @@ def _fam1(item, out):
     # one element changed through the attribute API, or one bond removed
     ne = 0
     for g0 in specs[:: max(1, len(specs) // 150)]:
-        for how in ("inplace", "copy"):
+        for how in ("inplace", "copy", "construct", "construct-unhashed"):
             for edit in ("element", "bond"):
                 r = U.build(g0)
-                h0 = hash(r)
-                t = r if how == "inplace" else r.copy()
+                h0 = hash(r) if how != "construct-unhashed" else None
+                t = r if how == "inplace" else (r.copy() if how == "copy" else type(r)(r))
                 m2 = g0.copy()
                 a0 = next(iter(g0.atoms))
                 if edit == "element":
@@ -105,6 +105,16 @@ def _fam1(item, out):
                 if mset(m2) == mset(g0):
                     continue
                 ne += 1
+                if how.startswith("construct"):
+                    # the derived graph was edited: the source still has its content, so the two differ in the multiset and must
+                    # hash differently (both hashed now, after the edit)
+                    if hash(t) == hash(r):
+                        out["viol"].append({"sig": f"C16/fam1/{E.SHORT[g0.kind]}/{item['pool']}/edit-{edit}-{how}/collision",
+                                            "input": U.key(g0),
+                                            "what": f"{U.describe(g0)}: a graph made with the converting constructor was {edit} edited; "
+                                                    f"source and edited copy hash alike although their multisets differ", "item": item,
+                                            "detail": None})
+                    continue
                 if hash(t) == h0:
                     out["viol"].append({"sig": f"C16/fam1/{E.SHORT[g0.kind]}/{item['pool']}/edit-{edit}-{how}/collision",
                                         "input": U.key(g0),
